@@ -20,7 +20,7 @@ from .ref import Model, Unsupported
 
 PROP = 'C16'
 QUOTAS = {
-    'quick': {'cheap': 3, 'medium': 3, 'heavy': 0, 'F1:cheap': 10, 'F2:medium': 8, 'F7:cheap': 4, 'R:cheap': 6, 'R:medium': 4},
+    'quick': {'cheap': 2, 'medium': 2, 'heavy': 0, 'F1:cheap': 8, 'F2:medium': 5, 'F7:cheap': 3, 'R:cheap': 4, 'R:medium': 3},
     'thorough': {'cheap': 100, 'medium': 60, 'heavy': 4, 'F1:cheap': 300, 'F2:medium': 80, 'R:cheap': 60, 'R:medium': 40},
 }
 
